@@ -127,7 +127,7 @@ def evaluate(case) -> Result:
             for i, c in conn_of.items():
                 fr = c.refresh()
                 for f in fr[seen_frames[i]:]:
-                    if f.is_request and f.code == 272:
+                    if f.is_request and f.code in (272, 8388700):
                         out.append((i, f))
                 seen_frames[i] = len(fr)
             return out
@@ -139,16 +139,35 @@ def evaluate(case) -> Result:
                 dest = ev[5] if len(ev) > 5 else None
                 ai = ai % len(case["apps"])
                 app = w.apps[ai]
-                msg = CreditControlRequest()
-                msg.session_id = "n;1"
-                msg.origin_host = W.NODE_HOST.encode()
-                msg.origin_realm = W.NODE_REALM.encode()
-                if realm is not None:
-                    msg.destination_realm = realm.encode()
-                msg.service_context_id = "x"
-                msg.cc_request_type = 1
-                msg.cc_request_number = 0
-                if dest is not None:
+                untyped = len(ev) > 6 and bool(ev[6])
+                if untyped:
+                    # a request of a command without a python class, built by the application from AVPs
+                    from diameter.message import Message
+                    from diameter.message.avp import Avp
+                    from diameter.message import constants as C_
+                    msg = Message()
+                    msg.header.command_code = 8388700
+                    msg.header.is_request = True
+                    msg.header.is_proxyable = True
+                    msg.append_avp(Avp.new(C_.AVP_SESSION_ID, value="n;1"))
+                    msg.append_avp(Avp.new(C_.AVP_ORIGIN_HOST, value=W.NODE_HOST.encode()))
+                    msg.append_avp(Avp.new(C_.AVP_ORIGIN_REALM, value=W.NODE_REALM.encode()))
+                    if realm is not None:
+                        msg.append_avp(Avp.new(C_.AVP_DESTINATION_REALM, value=realm.encode()))
+                    res.classes.append("request:untyped")
+                else:
+                    msg = CreditControlRequest()
+                    msg.session_id = "n;1"
+                    msg.origin_host = W.NODE_HOST.encode()
+                    msg.origin_realm = W.NODE_REALM.encode()
+                    if realm is not None:
+                        msg.destination_realm = realm.encode()
+                    msg.service_context_id = "x"
+                    msg.cc_request_type = 1
+                    msg.cc_request_number = 0
+                if realm is None:
+                    res.classes.append("request:no-destination-realm")
+                if dest is not None and not untyped:
                     # Destination-Host names the final recipient of the request; which directly connected peer is
                     # eligible for it is a matter of the configuration alone
                     msg.destination_host = (f"peer{dest % (len(case['peers']) + 1) + 1}.example").encode()
@@ -230,7 +249,7 @@ def evaluate(case) -> Result:
                 n_ans = len(w.answers_seen)
                 waiting = not s_["call"]["box"]["done"]
                 if variant == "good":
-                    w.feed_msg(c, {"k": "ANS", "host": host, "hbh": f.h["hbh"], "e2e": f.h["e2e"], "app": f.h["app_id"]})
+                    w.feed_msg(c, {"k": "ANS", "host": host, "hbh": f.h["hbh"], "e2e": f.h["e2e"], "app": f.h["app_id"], "code": f.code})
                     new = w.answers_seen[n_ans:]
                     if waiting:
                         if s_["answered"]:
@@ -256,7 +275,7 @@ def evaluate(case) -> Result:
                     ids = {"hbh": f.h["hbh"], "e2e": (f.h["e2e"] + 0x100000) & 0xffffffff} if variant == "wrong-e2e" else \
                           {"hbh": (f.h["hbh"] + 0x123457) & 0xffffffff, "e2e": f.h["e2e"]}
                     done_before = [s["call"]["box"]["done"] for s in sends]
-                    w.feed_msg(c, dict(ids, k="ANS", host=host, app=f.h["app_id"]))
+                    w.feed_msg(c, dict(ids, k="ANS", host=host, app=f.h["app_id"], code=f.code))
                     new = w.answers_seen[n_ans:]
                     if new:
                         res.v("C10/unknown-ids-delivered/handler", f"answer with {variant} reached handle_answer: {new}")
@@ -304,8 +323,9 @@ def cases_strategy(draw):
                      "realms": draw(st.sampled_from([None, None, ["r2.example"], ["extra.example"]])),
                      "kind": draw(st.sampled_from(["basic", "threading"]))})
     send = st.tuples(st.just("SEND"), st.integers(0, 2),
-                     st.sampled_from(["example", "example", "r2.example", "extra.example", "nowhere.example"]),
-                     st.sampled_from([2, 5, 30]), st.booleans(), st.one_of(st.none(), st.none(), st.integers(0, 4)))
+                     st.sampled_from(["example", "example", "r2.example", "extra.example", "nowhere.example", None]),
+                     st.sampled_from([2, 5, 30]), st.booleans(), st.one_of(st.none(), st.none(), st.integers(0, 4)),
+                     st.sampled_from([False, False, False, True]))
     ans = st.tuples(st.just("ANSWER"), st.integers(0, 5), st.sampled_from(["good", "good", "good", "wrong-e2e", "unknown-hbh"]))
     adv = st.tuples(st.just("ADV"), st.sampled_from([1, 3, 6]))
     events = draw(st.lists(st.one_of(send, send, ans, ans, adv), min_size=1, max_size=14))
@@ -762,7 +782,7 @@ def run(tier, scale=1.0):
     rec = Recorder(PID)
     for d in hyp.pool_run(shard_main, (tier, scale)):
         rec.merge(d)
-    required = {"destination-host:a-peer": 1, "destination-host:not-a-peer": 1, "answer-vs-timeout": 1, "slow-selection:chosen-lost:True": 1, "slow-selection:outcome:sent": 1, "slow-selection:outcome:not-routable": 1,
+    required = {"request:untyped": 1, "request:no-destination-realm": 1, "destination-host:a-peer": 1, "destination-host:not-a-peer": 1, "answer-vs-timeout": 1, "slow-selection:chosen-lost:True": 1, "slow-selection:outcome:sent": 1, "slow-selection:outcome:not-routable": 1,
                 "slow-selection:redialled:True": 1, "send-vs-loss": 1, "equal-hop-by-hop-two-connections": 1, "schedule-exploration": 1, "senders:3": 1, "npeers:4": 1, "napps:3": 1, "select:first": 1, "select:None": 1, "state:waiting-dwa": 1,
                 "state:disconnecting": 1, "state:disconnecting-late-dwa": 1, "state:awaiting": 1, "state:closed": 1, "sends:4": 1}
     return finish(rec, tier=tier, level="exploration", rule=RULE, assumptions=ASSUME, t0=t0,
